@@ -1,5 +1,6 @@
 from __future__ import annotations
 
+from numbers import Integral
 from typing import TYPE_CHECKING, Any, Self, TypeVar, overload
 
 from quansino.operations.composite import CompositeOperation
@@ -106,12 +107,12 @@ class BaseOperation:
         CompositeOperation
             The composite operation.
         """
-        if n < 1 or not isinstance(n, int):
+        if not isinstance(n, Integral) or n < 1:
             raise ValueError(
                 "The number of times the move is repeated must be a positive, non-zero integer."
             )
 
-        return CompositeOperation([self] * n)
+        return CompositeOperation([self] * int(n))
 
     __rmul__ = __mul__
 
